@@ -75,6 +75,9 @@ fn random_path(rng: &mut Rng, class: PathClass) -> String {
             }
         }
         PathClass::Awkward => {
+            if rng.chance(1, 6) {
+                return rng.pick(&gen::PLACEHOLDERS).to_string();
+            }
             if rng.chance(1, 8) {
                 let mut s = String::from("/");
                 let n = rng.range(1000, 4096);
@@ -112,6 +115,8 @@ pub fn scenario(rng: &mut Rng, tier: Tier) -> Scenario {
     for i in 0..n_subjects {
         let mut cfg = subject_cfg(rng, tier);
         cfg.matchers = cfg.matchers.min(12);
+        cfg.unsupported = 0;
+        cfg.placeholder_strings = rng.chance(1, 2);
         if i == 0 && cfg.time_tests == 0 {
             cfg.time_tests = 1;
         }
@@ -176,7 +181,8 @@ pub fn scenario(rng: &mut Rng, tier: Tier) -> Scenario {
         } else if take(w_compile) {
             Op::Compile { subj: rng.usize_below(n_subjects), slot: rng.usize_below(n_slots), script: vec![0, 1, 1], twice: false }
         } else if take(w_unrelated) {
-            let cfg = subject_cfg(rng, Tier::Quick);
+            let mut cfg = subject_cfg(rng, Tier::Quick);
+            cfg.placeholder_strings = rng.chance(1, 2);
             Op::Unrelated { texts: vec![gen::expression(rng, &cfg)], script: vec![] }
         } else if take(w_thread) {
             Op::SwitchThread { t: rng.usize_below(crate::hist::MAX_THREADS) }
@@ -407,4 +413,5 @@ pub static PROP: crate::histcheck::HistProp = crate::histcheck::HistProp {
     quick_runs: 20_000,
     thorough_runs: 1_000_000,
     block: 500,
+    cross_process: false,
 };
